@@ -57,6 +57,9 @@ class Pts:
     ident: int = field(default_factory=lambda: next(_ids))
     origin: str = ""
     requested: Optional[str] = None  # text of the `n=` argument the set was sampled with
+    paired: bool = False  # one row per parameter row (sampled with n=1 and the caller's whole parameter set): row k belongs to parameter row k
+    packed: bool = False  # rows selected out of such a set: their position no longer tells the parameter row
+    sel: object = None  # the index / mask that selected them
 
 
 @dataclass
@@ -108,6 +111,13 @@ class Opaque:
 
 
 OPAQUE = Opaque()
+
+
+class AllParams(Opaque):
+    """the whole parameter set handed to the sampling function (every row), as opposed to one selected row"""
+
+    def __repr__(self):
+        return "?params"
 
 
 class Sym(Opaque):
@@ -331,12 +341,12 @@ class Interp:
                 ops = operands(base)
                 if len(ops) != 1:
                     if iv.about is None:
-                        return PSet([Pts(B.conj(o.facts, iv.f), origin=o.origin) for o in ops])
+                        return PSet([Pts(B.conj(o.facts, iv.f), origin=o.origin, packed=o.paired or o.packed, sel=iv) for o in ops])
                     raise Misuse(f"index applied to a union of point sets: {dump(node)[:70]}", node)
                 p = ops[0]
                 if iv.about is not None and iv.about != p.ident:
                     raise Misuse(f"rows of `{dump(node.value)}` selected with a mask/index computed on other points: {dump(node)[:80]}", node)
-                return Pts(B.conj(p.facts, iv.f), origin=p.origin)
+                return Pts(B.conj(p.facts, iv.f), origin=p.origin, packed=p.paired or p.packed, sel=iv)
             if isinstance(iv, Const):
                 return base
             raise Undecided(f"selection `{dump(node)[:70]}` with an index the analysis does not understand")
@@ -374,7 +384,9 @@ class Interp:
             if d.name in ("M", "Minner"):
                 raise Undecided("recursive sampling of the operation itself")
             nreq = next((k.value for k in node.keywords if k.arg == "n"), node.args[0] if node.args else None)
-            return Pts(self.dom_atom(d), origin=("∂" if d.boundary else "") + d.name, requested=self.symtext(nreq, env) if nreq is not None else None)
+            pv = self.arg(node, "params", 2, env)
+            req = self.symtext(nreq, env) if nreq is not None else None
+            return Pts(self.dom_atom(d), origin=("∂" if d.boundary else "") + d.name, requested=req, paired=isinstance(pv, AllParams) and req == "1")
         if ch in ("torch.logical_not", "torch.bitwise_not") and len(node.args) == 1:
             v = self.ev(node.args[0], env)
             if isinstance(v, Mask):
@@ -587,6 +599,9 @@ class Interp:
                     return
                 idx = self.ev(target.slice, env)
                 for o in ops:
+                    if o.packed and isinstance(idx, (Index, Mask)) and isinstance(o.sel, (Index, Mask)) and idx.about == o.sel.about and B.show(idx.f) == B.show(o.sel.f):
+                        # buffer[idx] = rows[idx]: every accepted row goes to its own slot
+                        o = Pts(o.facts, origin=o.origin, paired=True)
                     base.stores.append(o)
             elif operands(base) is not None and operands(val) is not None:
                 raise Undecided("rows of a sampled point set are overwritten")
